@@ -228,6 +228,16 @@ def scan_module_setiter(tree, rel, set_attrs):
                         % ast.unparse(it)[:40], fname(n)))
         if isinstance(n, ast.Call) and isinstance(n.func, ast.Name) and n.func.id in ('list', 'tuple') and n.args and is_set_expr(n.args[0]):
             out.append(('setiter:%s' % ast.unparse(n)[:40], n.lineno, '`%s` materialises a set in hash order' % ast.unparse(n)[:40], fname(n)))
+        # the other consumers that walk their argument in order: sep.join(S), enumerate / zip / iter / map / filter / str of S, S.pop()
+        if isinstance(n, ast.Call) and isinstance(n.func, ast.Attribute) and n.func.attr == 'join' and n.args and is_set_expr(n.args[0]):
+            out.append(('setiter:%s' % ast.unparse(n)[:40], n.lineno, '`%s` concatenates the elements of a set in hash order: the text depends on the hash seed' % ast.unparse(n)[:50], fname(n)))
+        if isinstance(n, ast.Call) and isinstance(n.func, ast.Name) and n.func.id in ('enumerate', 'zip', 'iter', 'map', 'filter', 'str', 'repr', 'next') \
+                and any(is_set_expr(a) for a in n.args):
+            p_ = parents.get(id(n))
+            if not (isinstance(p_, ast.Call) and isinstance(p_.func, ast.Name) and p_.func.id in ORDER_FREE_CONSUMERS):
+                out.append(('setiter:%s' % ast.unparse(n)[:40], n.lineno, '`%s` walks a set in hash order' % ast.unparse(n)[:50], fname(n)))
+        if isinstance(n, ast.Call) and isinstance(n.func, ast.Attribute) and n.func.attr == 'pop' and not n.args and is_set_expr(n.func.value):
+            out.append(('setiter:%s' % ast.unparse(n)[:40], n.lineno, '`%s` takes an arbitrary element of a set' % ast.unparse(n)[:50], fname(n)))
         if isinstance(n, ast.Call) and isinstance(n.func, (ast.Name, ast.Attribute)) and \
                 (getattr(n.func, 'id', None) in ('sorted', 'min', 'max') or getattr(n.func, 'attr', None) == 'sort'):
             for kw in n.keywords:
@@ -269,6 +279,44 @@ def _inherited_class_state(ix, rep, prefix, rule):
     if not level:
         return 0
     reported = set()
+    # a class that is only ever used as a part of classes assembled at run time (the Ast: AbstractAst + parser visitor through ast_factory): no MRO
+    # links the class that owns the container with the class that fills it.  If nobody in the package ever gives an instance its own
+    # `self.<attr> = ...` and somebody fills `self.<attr>[..]`, the class-level container is the only one there is.
+    def _rebinds(k, a):
+        return any(isinstance(x, ast.Attribute) and isinstance(x.ctx, ast.Store) and x.attr == a and isinstance(x.value, ast.Name) and x.value.id == 'self'
+                   for g in k.methods.values() for x in ast.walk(g.node))
+
+    def _related(k):
+        out = [q for q in ix.mro(k) if isinstance(q, ClassInfo)]
+        out += [q for q in classes if k in [r for r in ix.mro(q) if isinstance(r, ClassInfo)]]
+        return out
+    for c in classes:
+        if not c.module.name.startswith(prefix):
+            continue
+        for a, ln in level.get(id(c), {}).items():
+            if any(_rebinds(k, a) for k in _related(c)):
+                continue
+            filler = None
+            for fc in classes:
+                if fc is c or '/antlr/' in fc.module.rel:
+                    continue
+                if any(_rebinds(k, a) for k in _related(fc)):
+                    continue          # that class family has instance containers of its own under this name
+                for g in fc.methods.values():
+                    for x in ast.walk(g.node):
+                        if isinstance(x, ast.Subscript) and isinstance(x.ctx, (ast.Store, ast.Del)) and isinstance(x.value, ast.Attribute) and x.value.attr == a \
+                                and isinstance(x.value.value, ast.Name) and x.value.value.id == 'self':
+                            filler = (fc, g)
+                        if isinstance(x, ast.Call) and isinstance(x.func, ast.Attribute) and x.func.attr in MUTATORS and isinstance(x.func.value, ast.Attribute) \
+                                and x.func.value.attr == a and isinstance(x.func.value.value, ast.Name) and x.func.value.value.id == 'self':
+                            filler = (fc, g)
+            # the owner class filling it itself is the plain clsstate case (scan_module_global)
+            if filler is not None and (id(c), a) not in reported:
+                reported.add((id(c), a))
+                n += 1
+                rep.fail(rule, c.module.rel, '%s.%s' % (c.name, a), 'clsstate:%s.%s' % (c.name, a), 'the class body of %s builds one `%s` container, no class of its family gives an instance '
+                         'its own (`self.%s = ...`), and %s.%s() -- a class that has no `%s` of its own either -- fills it through self: every object assembled from the two shares '
+                         'the one container, the table of the specification parsed last answers for all of them' % (c.name, a, a, filler[0].name, filler[1].node.name, a), ln)
     # the monitor classes assembled by the factories (interpreter base + semantic visitor): the visitor's methods run with the interpreter's attributes
     from sa import model as _M
     assembled = []
